@@ -339,6 +339,22 @@ class _MultiplicationFunctionMaker(_OperationFunctionMaker):
 
         return super()._compute_name()
 
+    @staticmethod
+    def __to_column(output_value: OutputType) -> OutputType:
+        """Reshape a vector-valued output as a column vector.
+
+        Args:
+            output_value: The output value of a function.
+
+        Returns:
+            The output value as a column vector if it has several components,
+            otherwise the unchanged output value.
+        """
+        if isinstance(output_value, ndarray) and output_value.size > 1:
+            return output_value.reshape((-1, 1))
+
+        return output_value
+
     def _compute_operation_jacobian(self, input_value: NumberArray) -> NumberArray:
         first_jac = self._first_operand._jac(input_value)
         if self._second_operand_is_number:
@@ -350,8 +366,10 @@ class _MultiplicationFunctionMaker(_OperationFunctionMaker):
                 tile(self._second_operand, (atleast_2d(first_jac).shape[1], 1)).T,
             )
 
-        first_func = self._first_operand.func(input_value)
-        second_func = self._second_operand.func(input_value)
+        # Each row of a Jacobian is scaled by
+        # the corresponding output component of the other operand.
+        first_func = self.__to_column(self._first_operand.func(input_value))
+        second_func = self.__to_column(self._second_operand.func(input_value))
         second_jac = self._second_operand._jac(input_value)
 
         if self._operator == numpy.multiply:
